@@ -47,6 +47,7 @@ TBody ==
     \/ Is("drop_stream") /\ P_DropStream(E.c, E.s)
     \/ Is("count") /\ P_Count(E.h, E.n)
     \/ Is("deliver") /\ Skip
+    \/ Is("accept_parked") /\ P_AcceptPending(E.h, E.p)
     \/ Is("panic") /\ P_Flag("NoPanic")
     \/ Is("overdue") /\ P_Overdue(SetOf(E.cs))
 
